@@ -1240,7 +1240,7 @@ func vcFamilyOracle(o *vOut, r *vRand) {
 		o.fail(class, detail)
 	}
 	for round := 0; round < rounds; round++ {
-		nl := append(vcCorpusNLRIs(), vC04GenNLRIs(r)...)
+		nl := append(append(vcCorpusNLRIs(), vcBoundaryNLRIs()...), vC04GenNLRIs(r)...)
 		fams := map[Family]bool{}
 		for _, c := range nl {
 			c := c
@@ -1257,6 +1257,16 @@ func vcFamilyOracle(o *vOut, r *vRand) {
 				opts := vcFamOpts(c.family, ap, false)
 				p := vcTry(func() {
 					b, err := c.nlri.Serialize(opts...)
+					if strings.HasSuffix(c.name, "/over-max") { // built one octet beyond the codec's maximum
+						if err == nil {
+							failOnce(cls("oversize-accepted"), "", map[string]any{"name": c.name, "family": c.family.String(), "emitted": len(b)})
+						}
+						o.stat("fam_bnd_over_max_refused", 1)
+						return
+					}
+					if strings.HasPrefix(c.name, "bnd/") {
+						o.stat("fam_bnd_nlri", 1)
+					}
 					if err != nil {
 						o.stat("fam_nlri_serialize_error:"+c.family.String(), 1)
 						failOnce(cls("serialize-error"), "", map[string]any{"name": c.name, "family": c.family.String(), "err": err.Error()})
@@ -1293,7 +1303,9 @@ func vcFamilyOracle(o *vOut, r *vRand) {
 		}
 		o.stats["fam_families_covered_last_round"] = len(fams)
 
-		for _, c := range append(vcCorpusAttrs(), vC04GenAttrs(r)...) {
+		attrCases := append(append(vcCorpusAttrs(), vcBoundaryAttrs()...), vcPairAttrs(r, nl)...)
+		attrCases = append(attrCases, vC04GenAttrs(r)...)
+		for _, c := range attrCases {
 			c := c
 			var fam Family
 			vpnLL := false
@@ -1374,6 +1386,28 @@ func vcFamilyOracle(o *vOut, r *vRand) {
 						if !vcEq(c.attr, p2) {
 							o.stat("fam_deq_diff:attr:"+kind, 1)
 						}
+						// framing of the NLRI list: same number of NLRIs, each the same octets
+						if want, isMp := vcMpNLRIs(c.attr); isMp && fam != RF_OPAQUE { // the opaque NLRI runs to the end of the attribute: one per attribute by design
+							got, _ := vcMpNLRIs(p2)
+							bad := len(got) != len(want)
+							for i := 0; !bad && i < len(want); i++ {
+								wb, e1 := want[i].NLRI.Serialize(opts...)
+								gb, e2 := got[i].NLRI.Serialize(opts...)
+								bad = e1 != nil || e2 != nil || string(wb) != string(gb) || (ap && want[i].ID != got[i].ID)
+							}
+							if bad {
+								failOnce(cls("nlri-misframed"), "", det(map[string]any{"bytes": vcHex(b), "want_nlris": len(want), "got_nlris": len(got)}))
+							}
+							if strings.Contains(c.name, ":pair/") {
+								o.stat("fam_pair_framing_checked", 1)
+							}
+						}
+						if strings.Contains(c.name, ":bnd/") {
+							o.stat("fam_bnd_attr", 1)
+							if len(b) > 258 {
+								o.stat("fam_bnd_attr_extended_length", 1)
+							}
+						}
 						// inside a whole UPDATE
 						msg := NewBGPUpdateMessage(nil, []PathAttributeInterface{c.attr}, nil)
 						mb, err := msg.Serialize(opts...)
@@ -1398,7 +1432,7 @@ func vcFamilyOracle(o *vOut, r *vRand) {
 			}
 		}
 
-		caps := vC04GenCaps(r)
+		caps := append(vcBoundaryCaps(), vC04GenCaps(r)...)
 		for _, c := range caps {
 			c := c
 			tag := fmt.Sprintf("cap%d", c.Code())
